@@ -116,6 +116,10 @@ def with_cmp(rng, ex):
     """the comparator shape is a parameter of the queue, not of the order: every family runs with all three"""
     if ex and ex[0].startswith("RESET ") and len(ex[0].split()) == 4:
         ex = [ex[0] + " " + rng.choice(CMPS)] + ex[1:]
+        # ... and so is where the caller keeps the handle: in a fifth of the executions the elements are records that embed
+        # their own handle and a record is removed into itself (output buffer overlapping the handle; pq_adapter.c "embed")
+        if rng.random() < 0.2:
+            ex[0] += " embed"
     return ex
 
 
